@@ -438,3 +438,15 @@ package memmetrics
 //@   modifies nothing
 //@   ensures separate_parts: result1 == nil ==> result0 != nil && fresh(result0) && result0.total != nil && result0.netErrors != nil && result0.total != result0.netErrors && backing(result0.total.values) != backing(result0.netErrors.values) && result0.histogram != nil && rollingOK(result0.histogram) && result0.statusCodes != nil && len(result0.statusCodes) == 0 && result0.newCounter != nil && result0.newHist != nil
 //@   loop 1 invariant m != nil && fresh(m) && m.statusCodes != nil && fresh(m.statusCodes) && len(m.statusCodes) == 0
+
+// the meters of the rebalancer are ready once the two counters together have seen a full window of buckets
+//@ func (*RatioCounter).IsReady
+//@   props C10 C17
+//@   requires r != nil && r.a != nil && r.b != nil
+//@   modifies nothing
+//@   ensures a_full_window_seen: result <==> (r.a.countedBuckets + r.b.countedBuckets >= len(r.a.values))
+//@ func (*RatioCounter).Reset
+//@   props C10 C17
+//@   requires r != nil && r.a != nil && r.b != nil && r.a != r.b && backing(r.a.values) != backing(r.b.values)
+//@   modifies elems(r.a.values), r.a.lastBucket, r.a.countedBuckets, r.a.lastUpdated, r.a.gsum, r.a.tclean, elems(r.b.values), r.b.lastBucket, r.b.countedBuckets, r.b.lastUpdated, r.b.gsum, r.b.tclean
+//@   ensures both_emptied: r.a.countedBuckets == 0 && r.b.countedBuckets == 0 && r.a.lastUpdated == zerotime && r.b.lastUpdated == zerotime && (forall j int :: 0 <= j && j < len(r.a.values) ==> r.a.values[j] == 0) && (forall j int :: 0 <= j && j < len(r.b.values) ==> r.b.values[j] == 0)
